@@ -18,7 +18,7 @@
 
    Characters are code points (N), strings are lists of code points, offsets
    are counted in characters (the harness converts byte offsets). *)
-From Yv Require Import Common.Base.
+From Yv Require Import Common.Base Gen.Gen_C04.
 From Coq Require Import List NArith Bool Arith.
 Import ListNotations.
 
@@ -285,11 +285,10 @@ Arguments EErr {A} e.
 Definition ebind {A B} (x : eres A) (f : A -> eres B) : eres B :=
   match x with EOk a => f a | EErr e => EErr e end.
 
-(* const SPECIAL_CHARS: &str = r"\.+*?()|[]{}^$";  const BRACKET_SPECIAL_CHARS: &str = "-&~"; *)
-Definition special_chars : list N :=
-  [c_bslash; c_dot; c_plus; c_star; c_quest; c_lpar; c_rpar; c_bar; c_lbr; c_rbr;
-   c_lbrace; c_rbrace; c_caret; c_dollar].
-Definition bracket_special_chars : list N := [c_hyphen; c_amp; c_tilde].
+(* const SPECIAL_CHARS: &str = r"\.+*?()|[]{}^$";  const BRACKET_SPECIAL_CHARS: &str = "-&~";
+   read from the source on every run by translator/c04_consts.py (Gen/Gen_C04.v) *)
+Definition special_chars : list N := gen_special_chars.
+Definition bracket_special_chars : list N := gen_bracket_special_chars.
 
 (* regex_syntax::ast::ClassAsciiKind::from_name *)
 Inductive ascii_kind :=
